@@ -577,8 +577,7 @@ def build_pipeline_inspection(
     inspection_nodes: List[NodeInspection] = []
     key_origin: Dict[str, int] = {}  # Maps context keys to the node that created them
     deleted_keys: set[str] = set()  # Tracks keys that have been deleted from context
-    all_required_params: set[str] = set()  # All parameters required from context
-    all_created_keys: set[str] = set()  # All keys created by any node
+    external_required: set[str] = set()  # Keys no earlier node provides when needed
     errors: List[str] = []
 
     # Process each node configuration
@@ -721,6 +720,7 @@ def build_pipeline_inspection(
             elif origin == "required":
                 context_params[name] = origin_idx
                 required_params.add(name)
+                external_required.add(name)
 
         # Merge explicit context requirements exposed by processor
         hook = getattr(processor.__class__, "get_context_requirements", None)
@@ -729,8 +729,8 @@ def build_pipeline_inspection(
                 if key not in context_params:
                     context_params[key] = key_origin.get(key)
                 required_params.add(key)
-
-        all_required_params.update(required_params)
+                if key not in key_origin or key in deleted_keys:
+                    external_required.add(key)
 
         required_external_parameters: List[str] = []
         required_hook = getattr(
@@ -775,7 +775,6 @@ def build_pipeline_inspection(
                 # Key is being recreated after deletion
                 deleted_keys.remove(key)
             key_origin.setdefault(key, index)
-        all_created_keys.update(created_keys)
 
         # Analyze context key suppression/deletion
         suppressed_keys = set()
@@ -830,7 +829,7 @@ def build_pipeline_inspection(
 
     # Calculate pipeline-level required context keys
     # These are parameters required by nodes but not created by any node
-    required_context_keys = all_required_params - all_created_keys
+    required_context_keys = external_required
 
     return PipelineInspection(
         nodes=inspection_nodes,
